@@ -911,9 +911,11 @@ theorem accept_congr_placing {d d' : Defects} (hn : d.newestFirstRead = false) (
     the entries' authors -/
 theorem accept_congr_author (d : Defects) (b : Bool) {s : RStore} {cand : RoomNode} (g : cand.placingOk = true) :
     accept d s cand = accept { d with placingAuthorUnchecked := b } s cand := by
-  unfold accept prepareWithHistory roomRowFor
-  simp only [g, Bool.not_true, Bool.and_false, Bool.false_eq_true, if_false]
-  rfl
+  have hp : ∀ room old, prepareWithHistory { d with placingAuthorUnchecked := b } room old cand =
+      prepareWithHistory d room old cand :=
+    fun room old => prepareWithHistory_switch (d := { d with placingAuthorUnchecked := b }) (d' := d) rfl rfl rfl room old cand
+  unfold accept
+  simp only [g, hp, Bool.not_true, Bool.and_false, Bool.false_eq_true, if_false]
 
 /-- **the code under a setting `d` of the two placing switches decides as the intended checks do** on the candidates
     that pass the guard of `d` (the other switches being off) -/
@@ -965,7 +967,7 @@ theorem checkNewAuths_congr {room : RoomT} {old l : List AuthNode}
 
 /-- the guard that was needed before /repo 77018f3 -/
 def candGuardBeforeFixes (s : RStore) (cand : RoomNode) : Bool :=
-  placingGuard s cand && cand.idsDistinct &&
+  cand.placingOk && placingGuard s cand && cand.idsDistinct &&
   match s.rooms.find? (·.id = cand.node.id), readBack false s cand.node.id with
   | some room, some old =>
     (rowEq cand.node old.node ||
@@ -1026,13 +1028,13 @@ theorem accept_congr_beforeFixes {s : RStore} {cand : RoomNode} (g : candGuardBe
     accept Defects.beforeFixesOldestFirst s cand = accept Defects.none s cand := by
   unfold candGuardBeforeFixes at g
   simp only [Bool.and_eq_true] at g
-  obtain ⟨⟨gp, gi⟩, gm⟩ := g
+  obtain ⟨⟨⟨gpl, gp⟩, gi⟩, gm⟩ := g
   -- first the placing references (guard), then the three switches that were fixed
-  rw [accept_congr_placing (d := Defects.beforeFixesOldestFirst) (d' := Defects.beforeFixesP) rfl rfl rfl rfl rfl gp]
-  have gpl : cand.placingOk = true := by
-    unfold placingGuard at gp; simp only [Bool.and_eq_true] at gp; exact gp.1
+  rw [accept_congr_author Defects.beforeFixesOldestFirst false gpl,
+    accept_congr_placing (d := { Defects.beforeFixesOldestFirst with placingAuthorUnchecked := false })
+      (d' := Defects.beforeFixesP) rfl rfl rfl rfl rfl rfl gp]
   unfold accept
-  simp only [gpl, gi, Bool.not_true, Bool.and_false, Bool.false_eq_true, if_false]
+  simp only [gpl, placingOk_label gpl, gi, Bool.not_true, Bool.and_false, Bool.false_eq_true, if_false]
   show (if (!cand.sigsOk) = true then _ else if (!cand.consistent) = true then _ else
       match s.rooms.find? (·.id = cand.node.id) with
       | some room => match readBack false s cand.node.id with
@@ -1071,13 +1073,15 @@ theorem accept_none_placing {s s' : RStore} {cand : RoomNode} (h : accept Defect
     · next h2 =>
       split at h
       · cases h
-      · next h3 =>
-        split at h
+      · split at h
         · cases h
-        · next h4 =>
-          simp only [Bool.not_eq_true', Bool.not_eq_false] at h1 h2
-          simp only [Defects.none, Bool.not_false, Bool.true_and, Bool.not_eq_true', Bool.not_eq_false] at h3 h4
-          exact ⟨h1, h2, h3, h4⟩
+        · next h3 =>
+          split at h
+          · cases h
+          · next h4 =>
+            simp only [Bool.not_eq_true', Bool.not_eq_false] at h1 h2
+            simp only [Defects.none, Bool.not_false, Bool.true_and, Bool.not_eq_true', Bool.not_eq_false] at h3 h4
+            exact ⟨h1, h2, h3, h4⟩
 
 /-- inversion of `accept` for any setting of the switches -/
 theorem accept_ok {d : Defects} {s s' : RStore} {cand : RoomNode} (h : accept d s cand = .ok s') :
